@@ -1,3 +1,4 @@
+import XPathV.Lemmas.AxesLemmas
 import XPathV.Generated.ExtraFacts
 import XPathV.Model.Api
 import XPathV.Lemmas.Facts
@@ -31,5 +32,39 @@ theorem shortcut_condition_ok : Generated.shortcutCondSrc =
 
 /-- the model's shortcut guard is read off the source and is on -/
 theorem shortcut_guard_from_source : Model.shortcutNeedsNodeTestFromSource = true := by decide +kernel
+
+/-! ## The Go traversal loops enumerate the XPath axes (every well-formed document, every node) -/
+
+/-- child: `MoveToChild` then `MoveToNext…` yields exactly the children, in document order -/
+theorem child_walk {d : Doc} (wf : WF d) (i : Nat) (hi : i < d.length) :
+    childrenM d (.node i) = Spec.children d (.node i) := children_spec wf i hi
+
+/-- descendant: the child/next/parent-with-level loop of `descendantQuery` yields exactly the
+descendants, in document order, and its level counter is the relative depth -/
+theorem descendant_walk {d : Doc} (wf : WF d) (i : Nat) (hi : i < d.length) :
+    (descM d (.node i)).map (·.1) = Spec.descendants d (.node i) ∧
+    ∀ rl ∈ descM d (.node i), rl.2 = dep d rl.1.idx - dep d i :=
+  ⟨desc_spec wf i hi, desc_level wf i hi⟩
+
+/-- ancestor: the `MoveToParent` chain is the ancestor axis (nearest first), for every node incl. attributes -/
+theorem ancestor_walk (d : Doc) (r : Ref) : ancestorsM d r = Spec.ancestors d r := ancestors_spec d r
+
+/-- following-sibling / preceding-sibling -/
+theorem sibling_walks {d : Doc} (wf : WF d) (i : Nat) (hi : i < d.length) :
+    nextSibsM d (.node i) = Spec.followingSiblings d (.node i) ∧
+    (prevSibsM d (.node i)).reverse = Spec.precedingSiblings d (.node i) :=
+  ⟨nextSibs_spec wf i hi, prevSibs_spec wf i hi⟩
+
+/-- following: climbing to each later sibling subtree and walking it in pre-order yields exactly the
+following axis, in document order -/
+theorem following_walk {d : Doc} (wf : WF d) (i : Nat) (hi : i < d.length) :
+    (followRoots d (2 * d.length + 2) (.node i)).flatMap (fun r => r :: (descM d r).map (·.1)) = Spec.following d (.node i) :=
+  following_spec_eq wf i hi
+
+/-- preceding: the earlier sibling subtrees of the node and of its ancestors are exactly the preceding axis -/
+theorem preceding_walk {d : Doc} (wf : WF d) (i : Nat) (hi : i < d.length) (x : Ref) :
+    x ∈ (precRoots d (2 * d.length + 2) (.node i) false).flatMap (fun rb => rb.1 :: (descM d rb.1).map (·.1)) ↔
+      x ∈ Spec.preceding d (.node i) :=
+  preceding_spec wf i hi x
 
 end XPathV.Theorems.C01
